@@ -627,6 +627,43 @@ def parse_elems(s):
     return res
 
 
+class GfqxSession:
+    """one harness process kept alive for a dialogue (first pass: draws; second pass: table look-ups at the model's indices)"""
+    WALL = 900
+
+    def __init__(self, binary):
+        import subprocess, threading
+        self.p = subprocess.Popen([binary, "2000"], stdin=subprocess.PIPE, stdout=subprocess.PIPE, stderr=subprocess.DEVNULL, universal_newlines=True)
+        self.timed_out = False
+        self.t = threading.Timer(self.WALL, self._kill)
+        self.t.daemon = True
+        self.t.start()
+
+    def _kill(self):
+        self.timed_out = True
+        try:
+            self.p.kill()
+        except OSError:
+            pass
+
+    def ask(self, line):
+        try:
+            self.p.stdin.write(line + "\n")
+            self.p.stdin.flush()
+            o = self.p.stdout.readline()
+        except (OSError, ValueError):
+            return None
+        return o.rstrip("\n") if o else None
+
+    def close(self):
+        self.t.cancel()
+        try:
+            self.p.stdin.close()
+            self.p.wait(timeout=30)
+        except Exception:
+            self._kill()
+
+
 # ------------------------------------------------------------------ main
 def main(tier, replay=None):
     chk = vf.Check("C20", tier, "proof")
@@ -686,12 +723,25 @@ def main(tier, replay=None):
         import json
         rp = json.load(open(replay))
         cases = [f["case"] for f in rp.get("failing_inputs", []) if isinstance(f.get("case"), dict) and "line" in f["case"]] or cases
-    impl_in = "".join(c["line"] + "\n" for c in cases)
+    # the table fields of the gfqx family choose their irreducible polynomial when they are built (not reproducible from one process to
+    # the next): these cases are put to ONE harness process that stays alive until the model has computed the table indices (second pass)
+    cases = [c for c in cases if c["fam"] != "gfqx"] + [c for c in cases if c["fam"] == "gfqx"]
+    nbatch = len([c for c in cases if c["fam"] != "gfqx"])
+    gsess = GfqxSession(himpl) if nbatch < len(cases) else None
+    impl_in = "".join(c["line"] + "\n" for c in cases[:nbatch])
     rc, iout, ierr = vf.run_lines(himpl, impl_in, timeout=1500, args=["%d" % LIMIT_MS])
+    if rc == 0 and len(iout) == nbatch and gsess:
+        for c in cases[nbatch:]:
+            o_ = gsess.ask(c["line"])
+            if o_ is None:
+                break
+            iout.append(o_)
     if rc == 124:
         # our own tooling ran out of wall-clock time (machine load): inconclusive, recorded, not a verdict about the property
         chk.cov["inconclusive"] = "implementation harness: %d of %d cases answered within 1500 s wall clock" % (len(iout), len(cases))
         chk.notes.append(chk.cov["inconclusive"])
+        if gsess:
+            gsess.close()
         return chk.finish()
     # the per-case limit is CPU time of the harness process (ITIMER_PROF), so it does not depend on the load of the machine; a
     # TIMEOUT is nevertheless confirmed by running the case again with 25 times the limit before it is reported
@@ -716,6 +766,8 @@ def main(tier, replay=None):
         if len(iout) < len(cases) and rc != 0:
             c = cases[len(iout)]
             chk.fail_input("harness crash", c["fam"], c, "a result line", "process died (rc=%s)" % rc)
+        if gsess:
+            gsess.close()
         return chk.finish()
     mout = [None] * len(cases)
     if drv:
@@ -1133,12 +1185,17 @@ def main(tier, replay=None):
                 chk.broke("correspondence model/implementation differs on %s: model=%s impl=%s" % (c["line"], b[:300], a[:300]))
     # GFqExtFast::random: the model computed, for every draw, the two table indices; the implementation now evaluates
     # add(_high2log[ih], _low2log[il]) for them and must find the exponent it returned in the first pass
-    if gfqx_second:
-        rc2, o2, _ = vf.run_lines(himpl, "".join("gfqxchk %d %d %d %s\n" % (c["w"], c["p"], c["e"], " ".join(idx)) for (c, idx, _) in gfqx_second), timeout=900, args=["2000"])
-        if rc2 == 124:
-            chk.cov["inconclusive"] = "second pass for GFqExtFast::random did not finish within 900 s wall clock"
-        elif rc2 != 0 or len(o2) != len(gfqx_second):
-            chk.broke("second harness pass (gfqxchk) failed: rc=%s, %d/%d lines" % (rc2, len(o2), len(gfqx_second)))
+    if gfqx_second and gsess:
+        o2 = []
+        for (c, idx, _) in gfqx_second:
+            o_ = gsess.ask("gfqxchk %d %d %d %s" % (c["w"], c["p"], c["e"], " ".join(idx)))
+            if o_ is None:
+                break
+            o2.append(o_)
+        if gsess.timed_out:
+            chk.cov["inconclusive"] = "second pass for GFqExtFast::random did not finish within %d s wall clock" % GfqxSession.WALL
+        elif len(o2) != len(gfqx_second):
+            chk.broke("second harness pass (gfqxchk) failed: %d/%d lines" % (len(o2), len(gfqx_second)))
         else:
             for (c, idx, want), got in zip(gfqx_second, o2):
                 if got.split() != [str(w_) for w_ in want]:
@@ -1148,6 +1205,8 @@ def main(tier, replay=None):
                         chk.broke("correspondence: GFqExtFast::random returned %s, add(_high2log[ih], _low2log[il]) at the model's indices %s gives %s (%s)"
                                   % (want, idx, got[:200], c["line"]))
         chk.cov["gfqext_draws_tied_through_model_indices"] = sum(len(x[1]) for x in gfqx_second)
+    if gsess:
+        gsess.close()
     if len(chk.broken) > 20:
         chk.broken = chk.broken[:20] + [{"what": "... %d more" % (len(chk.broken) - 20), "detail": ""}]
     chk.cov["rule"] = ("every call form of GivRandom, of the Integer range constructions (template <true>/<false>/default, by-reference and "
